@@ -1,5 +1,5 @@
 """Registry: property id -> engine, budgets, manifest texts."""
-from . import e1_solver, e3_entry, e6_order
+from . import e1_solver, e3_entry, e5_render, e6_order
 
 
 def _budget(batches, examples, wall_s):
@@ -123,6 +123,36 @@ for _pid, (_title, _tech) in _E1.items():
         "level_note": _LEVEL_NOTE,
     }
 
+_E5 = {
+    "C13": ("The diagram shows the events the cost model counts",
+            "layout/render histories on one reconciliation object with the TeX engine simulated "
+            "as a peer process (drawn sizes, chatter, engine choice, failures, dropped or "
+            "duplicated measurement lines); event / loss / transfer census per species against an "
+            "independent recount, at layout and at TikZ level"),
+    "C14": ("Geometric coherence and orientation symmetry",
+            "compute V / compute H (peer answering transposed sizes) / repeated computes on the "
+            "same mutated object or a fresh parse, in drawn order; geometric predicates, mirror "
+            "and twice-equal comparisons"),
+    "C15": ("Well-formed TikZ, colour scoping, faithful labels",
+            "render histories with hostile names, nested colours and label widths through the "
+            "simulated peer; TikZ tokenizer, reference colour scoping (also on the second compute "
+            "after the first wrote colour features), forward label matcher"),
+}
+for _pid, (_title, _tech) in _E5.items():
+    PROPS[_pid] = {
+        "id": _pid,
+        "engine": e5_render,
+        "quick": _budget(64, 120, 75),
+        "thorough": _budget(640, 300, 1500),
+        "technique": "deterministic simulation: " + _tech,
+        "level_text": _title + ": the only way to run layout and rendering here is against a "
+                      "simulated TeX peer; the simulator owns its answers and faults, and the "
+                      "history of calls on the shared reconciliation object. Seeded exploration "
+                      "with shrinking replay files.",
+        "design_ref": f"DESIGN.md section 6 ({_pid}), section 5 (E5), section 3.2 (S4)",
+        "level_note": _LEVEL_NOTE,
+    }
+
 NOT_APPLICABLE = {
     "C06": "pure function of a frozen value (node_event/_cost_rec/labeling cost): no schedule, order, "
            "stream, clock or history can affect it, so deterministic simulation has nothing to "
@@ -147,6 +177,8 @@ PENDING = {
 }
 
 ENGINES = [
+    {"name": "E5-render", "path": "sim/e5_render.py", "serves_properties": ["C13", "C14", "C15"],
+     "kind_free_text": "layout/render histories against a simulated TeX engine peer (sim/peer.py)"},
     {"name": "E1-solver-history", "path": "sim/e1_solver.py",
      "serves_properties": ["C01", "C02", "C03", "C04", "C05", "C08", "C09", "C10"],
      "kind_free_text": "operation histories on shared solver inputs incl. lazy producers (E2), "
